@@ -509,6 +509,25 @@ class Analyzer(object):
                 return True
         return False
 
+    _ITER_BUILTINS = ("iter", "zip", "map", "filter", "enumerate", "reversed")
+
+    def _is_iterator_expr(self, fi, e):
+        if e is None:
+            return False
+        if isinstance(e, ast.GeneratorExp):
+            return True
+        if isinstance(e, ast.Call):
+            d = dotted(e.func)
+            if d and len(d) == 1 and d[0] in self._ITER_BUILTINS and d[0] not in fi.local_names and self.world.static_lookup(fi.mod, d[0]) is None:
+                return True
+            if d:
+                v = self.world.static_lookup(fi.mod, d[0])
+                if isinstance(v, ExtV) and ".".join([v.name] + d[1:]).startswith("itertools."):
+                    return True
+                if isinstance(v, FuncV) and len(d) == 1 and any(isinstance(x, (ast.Yield, ast.YieldFrom)) for x in ast.walk(v.node)):
+                    return True              # a call of a package generator function
+        return False
+
     def judge_target(self, fi, stmt, t):
         if isinstance(t, (ast.Tuple, ast.List)):
             for e in t.elts:
@@ -520,6 +539,13 @@ class Analyzer(object):
             return
         if isinstance(t, (ast.Attribute, ast.Subscript)):
             ok, why = self.judge_base(fi, t.value)
+            if ok and why == "self-init" and not fi.is_session and isinstance(stmt, (ast.Assign, ast.AnnAssign)) \
+                    and self._is_iterator_expr(fi, getattr(stmt, "value", None)):
+                # a single-pass iterator kept on an object that sessions share: every consumer advances it,
+                # so what one session sees depends on how many others ran before (a hidden write)
+                self.report("W1", fi, stmt, "a single-pass iterator (%s) is stored on an instance of the shared class %s: consuming it "
+                            "mutates state shared between sessions" % (ast.unparse(stmt.value)[:50], fi.owner.name if fi.owner else "?"))
+                return
             if ok:
                 key = {"self-session": "stores_self_session", "self-init": "stores_self_init"}.get(why, "stores_fresh")
                 self.stats[key] += 1
@@ -629,17 +655,25 @@ class Analyzer(object):
         par = getattr(call, "_parent", None)
         if isinstance(par, ast.Attribute) and isinstance(par.ctx, ast.Load):
             return True                       # memoryview(x).nbytes / .tobytes()
-        if not (isinstance(par, ast.Assign) and len(par.targets) == 1 and isinstance(par.targets[0], ast.Name) and par.value is call):
+        if isinstance(par, ast.Call) and call in par.args and ast.unparse(par.func) in ("int.from_bytes", "bytes", "binascii.hexlify", "len"):
+            return True                       # int.from_bytes(memoryview(x), ...): read once by a pure conversion
+        if isinstance(par, ast.withitem) and par.context_expr is call and isinstance(par.optional_vars, ast.Name):
+            bound = par.optional_vars                  # with memoryview(x) as view:
+        elif isinstance(par, ast.Assign) and len(par.targets) == 1 and isinstance(par.targets[0], ast.Name) and par.value is call:
+            bound = par.targets[0]
+        else:
             return False
-        name = par.targets[0].id
+        name = bound.id
         for u in ast.walk(fi.node):
-            if isinstance(u, ast.Name) and u.id == name and u is not par.targets[0]:
+            if isinstance(u, ast.Name) and u.id == name and u is not bound:
                 up = getattr(u, "_parent", None)
                 if isinstance(u.ctx, ast.Load) and isinstance(up, ast.Attribute) and up.value is u and isinstance(up.ctx, ast.Load):
                     continue
                 if isinstance(u.ctx, ast.Load) and isinstance(up, ast.Call) and isinstance(up.func, ast.Name) and up.func.id in ("len", "bytes") \
                         and up.args == [u]:
                     continue
+                if isinstance(u.ctx, ast.Load) and isinstance(up, ast.Call) and u in up.args and ast.unparse(up.func) in ("int.from_bytes", "bytes", "binascii.hexlify"):
+                    continue                           # read by a pure conversion
                 return False
         return True
 
